@@ -107,6 +107,20 @@ fn crafted() -> Vec<(String, Vec<KEv>)> {
         "(defcfg concurrent-tap-hold yes)\n(defsrc a b c)\n(deflayer l0 a b c)\n(defchordsv2 (a b) c 30 all-released ())\n",
         "(defsrc a b c)\n(deflayer l0 (dynamic-macro-record 1) (dynamic-macro-play 1) c)\n",
     ] {
+        // bursts without a tick: more presses than the 16-slot lists of chords v2 / sequences hold
+        for (n, with_rel) in [(17usize, false), (20, true), (33, false), (40, true)] {
+            let mut h = vec![];
+            for i in 0..n {
+                let key = ["a", "b", "a", "c"][i % 4];
+                h.push(p(key));
+                if with_rel {
+                    h.push(rl(key));
+                }
+            }
+            h.push(t(300));
+            v.push((cfg.to_string(), h));
+            v.push((cfg.to_string(), std::iter::repeat(p("a")).take(n).chain(std::iter::once(t(300))).collect()));
+        }
         for seed in 0..6u64 {
             let mut r2 = Rng::new(0xC02_5E9 ^ seed);
             let keys = [code("a"), code("b"), code("c")];
@@ -165,6 +179,9 @@ fn crafted() -> Vec<(String, Vec<KEv>)> {
         "(switch ((key-history a 1)) x break () @src break)", "(chord grp a)", "@th", "(one-shot 100 lsft)", "(tap-dance 50 (x y))",
         "(layer-while-held l1)", "rpt", "rpt-any", "(macro x 10 y)", "(release-key a)", "(caps-word 100)", "(unmod x)",
         "(on-press-fakekey v1 tap)", "(fork x y (lsft))", "(switch ((input real a)) x break () y break)", "(multi lsft (macro-release-cancel x 50 y))",
+        // more virtual-key events in one tick than the old 16-slot hand-over queue held
+        "(multi (on-press-fakekey v1 tap) (on-press-fakekey v1 tap) (on-press-fakekey v1 tap) (on-press-fakekey v1 tap) (on-press-fakekey v1 tap) (on-press-fakekey v1 tap) (on-press-fakekey v1 tap) (on-press-fakekey v1 tap) (on-press-fakekey v1 tap))",
+        "(multi (on-press-fakekey v1 tap) (on-press-fakekey v1 tap) (on-press-fakekey v1 tap) (on-press-fakekey v1 tap) (on-press-fakekey v1 tap) (on-press-fakekey v1 tap) (on-press-fakekey v1 tap) (on-press-fakekey v1 tap) (on-press-fakekey v1 tap) (on-press-fakekey v1 tap) (on-press-fakekey v1 tap) (on-press-fakekey v1 tap) (on-press-fakekey v1 tap) (on-press-fakekey v1 tap) (on-press-fakekey v1 tap) (on-press-fakekey v1 tap) (on-press-fakekey v1 tap) (on-press-fakekey v1 tap) (on-press-fakekey v1 tap) (on-press-fakekey v1 tap))",
     ] {
         let cfg = format!(
             "(defcfg concurrent-tap-hold yes)\n(defvirtualkeys v1 z)\n(defchords grp 50 (a) _ (b) use-defsrc (a b) z)\n(defalias tr _ src use-defsrc th (tap-hold 50 50 x lctl))\n(defsrc a b c)\n(deflayer l0 a b (layer-while-held l1))\n(deflayer l1 (chord grp a) (chord grp b) _)\n(defchordsv2 (a b) {act} 30 all-released ()\n (b c) {act} 30 first-release ())\n"
